@@ -67,6 +67,15 @@ CLAIMS = {
         ref='6 C14',
         note=SHELL_NOTE,
         tech='Coq proof (start-up invariant + monitors over a connection-level LTS; codec theorem for the content) + scheduler-driven correspondence + oracle'),
+    'C20': dict(
+        text='Coq theorems over the connection-level LTS Model/Shell.v with faults as labels (recv returning EOF / raising between ANY two chunks, raising after the server\'s own close, sendall failing on ANY line): '
+             'c20_close_honoured / c20_close_ignored / c20_close_bad_id, c20_close_sequence, c20_join_waits_for_writer, c20_shutdown_waits_for_pool, c20_closed_means_drained (invariant: socket closed by the library => writer ended, pool drained, every accepted job completed), '
+             'c20_no_fault_no_report, c20_writer_drains, c20_exit_only_after_report (monitor exit_ok along every execution), c20_read_fault, c20_own_close_silent, c20_handler_decides_reader / _writer (exit iff the handler returns True), c20_write_fault, c20_reclose (Props/C20.v). '
+             'The real servers run under the deterministic scheduler with scripted EOF / ECONNRESET after each chunk position (before init, mid-line, between requests), the k-th write failing, handler absent / returning True / False / None, agreed versions none / 1.8.2 / 1.8.3, close ids 0 / other, '
+             'application close() once or twice; os._exit is substituted by a recording primitive that halts the run; every step is replayed through the model and the property text is the oracle (handler calls, exit calls, socket close, bytes written after the fault).',
+        ref='6 C20',
+        note=SHELL_NOTE + ' Runtime facts assumed, not modelled: socket.close() waking a blocked recv is OS dependent (scripted as an error on the next recv); os._exit never returns.',
+        tech='Coq proof (inductive invariants, history monitors and step lemmas over a connection-level LTS with fault labels) + scheduler-driven fault-injection correspondence + oracle'),
     'C04': dict(
         text='Coq theorems over the connection-level LTS Model/Shell.v (starter, reader, writer, n pool workers, application and adapter threads; any interleaving, chunking, adapter outcome, fault): '
              'c04_pool_discipline (monitor pool_ok: every job started once in FIFO order; a Metadata job = adapter calls, then EXACTLY ONE of its reply — with its own id — or one handler notification, then its end), '
